@@ -46,70 +46,6 @@ ENUM_EXPR_THOROUGH = ("EnumCases(\"Float\", TRUE, FALSE, LeafMapsOver({%s}), <<6
 # the tile_fits / FitsTiler workflow in TOAST mode (several images of disjoint footprints)
 # ------------------------------------------------------------------------------------------------
 
-# (RA, Dec of the centre, lowest value, highest value): far apart on the sky, distinct value ranges
-WF_IMAGES = [(30.0, 30.0, 100.0, 200.0), (210.0, -30.0, 1.0, 2.0), (300.0, 20.0, -50.0, -40.0)]
-
-
-def workflow_run(args):
-    """Real run: toasty.tile_fits in TOAST mode on tiny FITS images, then read EVERYTHING back with astropy:
-    the finite data range of every leaf file (ground truth), the cards of every tile, the Builder, the WTML."""
-    scratch, order, start, parallel = args[:4]
-    tan_shape = args[4] if len(args) > 4 else None      # TAN route: one image of this (height, width), depth chosen by toasty
-    repo.setup()
-    import glob
-    import os
-    import tempfile
-    import warnings
-    import xml.etree.ElementTree as ET
-    import numpy as np
-    from astropy.io import fits
-    from astropy.wcs import WCS
-    warnings.simplefilter("ignore")
-    work = tempfile.mkdtemp(prefix="c14wf-", dir=scratch)
-    paths = []
-    n = 24
-    for k in order:
-        ra, dec, lo, hi = WF_IMAGES[k]
-        ny, nx = tan_shape or (n, n)
-        w = WCS(naxis=2)
-        w.wcs.ctype = ["RA---TAN", "DEC--TAN"]
-        w.wcs.crval = [ra, dec]
-        w.wcs.crpix = [nx / 2 + 0.5, ny / 2 + 0.5]
-        w.wcs.cdelt = [-0.1, 0.1] if tan_shape is None else [-0.001, 0.001]
-        data = np.linspace(lo, hi, ny * nx, dtype=np.float32).reshape((ny, nx))
-        data[3, 5] = np.nan
-        path = os.path.join(work, "img%d.fits" % k)
-        fits.writeto(path, data, header=w.to_header(), overwrite=True)
-        paths.append(path)
-    out = os.path.join(work, "tiled")
-    obs = {"order": list(order), "start": start, "parallel": parallel, "error": None, "leaves": {}, "tiles": {},
-           "route": "TOAST" if tan_shape is None else "TAN %dx%d" % (tan_shape[1], tan_shape[0])}
-    try:
-        from toasty import TilingMethod, tile_fits
-        if tan_shape is None:
-            _dir, bld = tile_fits(fits=paths, out_dir=out, tiling_method=TilingMethod.TOAST, parallel=parallel, override=True, start=start)
-        else:
-            _dir, bld = tile_fits(fits=paths, out_dir=out, tiling_method=TilingMethod.TAN, parallel=parallel, override=True)
-            start = obs["start"] = int(bld.imgset.tile_levels)
-        obs["imgset"] = (float(bld.imgset.data_min), float(bld.imgset.data_max))
-    except BaseException as e:  # noqa
-        obs["error"] = repr(e)
-        return obs
-    found, _other = base.scan_tiles(out, "fits")
-    for pos, path in found.items():
-        with fits.open(path) as hdul:
-            hdr = dict((k, float(hdul[0].header[k])) for k in ("DATAMIN", "DATAMAX") if k in hdul[0].header)
-            obs["tiles"][pos] = hdr
-            if pos[0] == start:
-                d = np.asarray(hdul[0].data)
-                d = d[np.isfinite(d)]
-                obs["leaves"][pos] = (float(d.min()), float(d.max())) if d.size else None
-    wtml = os.path.join(out, "index_rel.wtml")
-    if os.path.exists(wtml):
-        obs["wtml"] = [(float(e.get("DataMin", "0")), float(e.get("DataMax", "0"))) for e in ET.parse(wtml).getroot().iter("ImageSet")]
-    return obs
-
-
 def workflow_cases(ctx, quick):
     """Run the workflow on the real code (2 and 3 images, every input order) and turn what the leaf files hold into
     Cascade.tla cases: every stored leaf becomes an abstract leaf holding its observed finite minimum and maximum
@@ -133,7 +69,7 @@ def workflow_cases(ctx, quick):
     if not quick:
         runs += [(ctx.scratch, (2,), 0, 1, (256, 256)), (ctx.scratch, (0,), 0, 1, (30, 40)), (ctx.scratch, (1,), 0, 1, (600, 520))]
     with cf.ProcessPoolExecutor(max_workers=8, mp_context=mp.get_context("fork"), initializer=base._quiet_worker) as ex:
-        observed = list(ex.map(workflow_run, runs))
+        observed = list(ex.map(base.workflow_run, runs))
     tasks = {}
     for i, obs in enumerate(observed):
         ctx.count()
